@@ -127,7 +127,13 @@ def build_invert():
     k2 = Int("k_cross2")
     z2 = substitute(z, (k, k2))
     hy2 = hb + [substitute(h, (k, k2)) for h in hb if k.get_id() in {c.get_id() for c in _consts(h)}] + [k < k2, k2 < K]
-    ob("solutions-strictly-increasing", z < z2, hy2)
+    # split so that the final query is linear: (hint) every solution lies strictly below the end of its segment; then, with the two
+    # solutions abstracted,  z < x[j+1] <= x[j'] <= z'  from the ascending segment indices and the ascending x
+    ob("crossing/solution-strictly-below-the-segment-end", z < xj1, hb, "hint")
+    j2 = substitute(j, (k, k2))
+    zz, zz2 = Real("z!abs"), Real("z2!abs")
+    lin = [h for h in hy2 if "*" not in h.sexpr() and "/" not in h.sexpr()]
+    ob("solutions-strictly-increasing", zz < zz2, lin + [zz < X[j + 1], X[j2] <= zz2], "post", {"abstracted": True, "idx": [str(j), str(j2), str(j + 1), str(k), str(k2)]})
     for o in live:
         r, hy = o.value, o.path.pc
         okb = isinstance(r, T)
